@@ -157,6 +157,17 @@ def chains(body, operand, arg=0, depth=0, _acc=None, stop=None):
                     out.extend(sub)
                     continue
             out.append((acc + (r.name,), r))
+        elif r.kind == "agg" and r.site is not None and depth < 12 and body.raw.get("desugared") is not None and \
+                str(r.name) in ("std::result::Result::Ok", "std::option::Option::Some", "std::result::Result::Err") and not r.fields:
+            # written-out combinator: Ok(x) / Some(x) / Err(e) built from the payload of the value it was matched on
+            sub = []
+            for st in body.blocks[r.site]["stmts"]:
+                if st["k"] == "assign" and st["rv"]["k"] == "aggregate" and mir.agg_name(st["rv"]) == r.name and st["rv"]["fields"]:
+                    sub.extend(chains(body, st["rv"]["fields"][0]["op"], arg, depth + 1, acc, stop))
+            if sub:
+                out.extend(sub)
+            else:
+                out.append((acc, r))
         else:
             out.append((acc, r))
     return out
